@@ -217,10 +217,18 @@ func (env *specEnv) eval(e SExpr) TV {
 		sub.vars = copyVars(env.vars)
 		sub.inQuant = true
 		var decls []string
-		for _, v := range x.Vars {
+		for i, v := range x.Vars {
 			n := env.fc.sc.fresh("q_" + v)
-			sub.vars[v] = TV{T: n, Sort: "Int"}
-			decls = append(decls, fmt.Sprintf("(%s Int)", n))
+			srt := "Int"
+			if i < len(x.Sorts) {
+				srt = x.Sorts[i]
+			}
+			sub.vars[v] = TV{T: n, Sort: srt}
+			if srt == "StrKey" {
+				decls = append(decls, fmt.Sprintf("(%s Int)", n))
+				continue
+			}
+			decls = append(decls, fmt.Sprintf("(%s %s)", n, srt))
 		}
 		body := sub.eval(x.Body)
 		q := "exists"
@@ -1035,6 +1043,11 @@ func (env *specEnv) evalCall(x *SCall) TV {
 		for i, a := range x.Args {
 			v := env.eval(a)
 			ps = append(ps, fmt.Sprintf("(p%d %s)", i, specSort(sf.Params[i])))
+			if sf.SMTBody == "" && specSort(sf.Params[i]) == "Str" && v.Sort == "StrKey" {
+				// a variable bound as n:strkey ranges over the canonical keys of strings directly
+				args = append(args, v.T)
+				continue
+			}
 			if sf.SMTBody == "" && specSort(sf.Params[i]) == "Str" && v.Sort == "Str" {
 				// uninterpreted spec functions see strings through their canonical key (extensional)
 				args = append(args, app("skey", v.T))
